@@ -433,6 +433,65 @@ def run_series(ctx, vh, prop, name="series"):
     return cases, findings, raw
 
 
+def self_test_series(ctx, raw, findings, prop):
+    """Binding self-test of the series judge: corrupted / ill-formed observations of an accepted large case must be
+    rejected as violations (never crash the judge)."""
+    bad_ids = {f["id"] for f in findings}
+    target = None
+    for x in raw:
+        o = json.loads(x)
+        if o["id"] not in bad_ids and o["rd"] == "OK" and o["ser"]["n"] > 4096 and o["ser"]["faces"]["on"] and o["mesh"]["attrs"]:
+            target = o
+            break
+    if target is None:
+        raise core.Infra("series self-test found no accepted large case to corrupt")
+    n = target["ser"]["n"]
+    variants = []
+
+    def variant(what, fn):
+        v = json.loads(json.dumps(target))
+        fn(v)
+        variants.append((what, v))
+
+    def pos(v):            # the attribute that identifies the record
+        return [a for a in v["mesh"]["attrs"] if a["n"] == "Position"][0]
+
+    def bump(v):
+        cell = pos(v)["data"][4096]
+        cell[0] = cell[0] + 1 if not isinstance(cell[0], list) else [cell[0][0], cell[0][1], cell[0][2], (cell[0][3] + 1) % 65536]
+
+    def swap(v):
+        d = pos(v)["data"]
+        d[0], d[n - 1] = d[n - 1], d[0]
+
+    def block(v):          # what a block-wise reader with a local index leaves: the tail stored over the head
+        for a in v["mesh"]["attrs"]:
+            d = a["data"]
+            tail = d[4096:]
+            a["data"] = tail + d[len(tail):4096] + [[0] * a["ar"] for _ in tail]
+
+    variant("value-at-4096", bump)
+    variant("records-swapped", swap)
+    variant("tail-over-head", block)
+    variant("idx-element", lambda v: v["mesh"]["idx"].__setitem__(5, (v["mesh"]["idx"][5] + 1) % n))
+    variant("record-dropped", lambda v: v["mesh"]["attrs"][0]["data"].pop())                 # ill-formed: n - 1 records
+    variant("cell-arity", lambda v: v["mesh"]["attrs"][0]["data"][7].pop())                  # ill-formed: short record
+    variant("attribute-missing", lambda v: v["mesh"]["attrs"].pop(0))
+    variant("idx-empty", lambda v: v["mesh"].__setitem__("idx", []))
+    rejected_by = {}
+    for what, v in variants:
+        d = ctx.scratch("series-selftest-" + what)
+        with open(os.path.join(d, "trace.ndjson"), "w") as f:
+            f.write(json.dumps(v, separators=(",", ":")) + "\n")
+        r = core.run_tlc(d, "TracePlySeries", "TracePlySeries.cfg", timeout=600, heap="2g")
+        preds = sorted({b["p"] for x in r.values if isinstance(x, dict) and "bad" in x for b in x["bad"]})
+        if r.postcondition_failed or not any(p.startswith(prop + ".") for p in preds):
+            raise core.Infra("series self-test: corruption %s of an accepted case (%d records) was not rejected (got %s)" %
+                             (what, n, preds))
+        rejected_by[what] = preds
+    ctx.extra["series_selftest_rejected_by"] = rejected_by
+
+
 def report_series(ctx, prop, cases, findings):
     per_sig = ctx.extra.setdefault("rejections_per_signature", {})
     for f in findings:
@@ -595,6 +654,7 @@ def run_family(ctx, prop):
                          ctx.extra["execution_aborted"])
     if ctx.tier == "thorough" or os.environ.get("VERIF_SELFTEST") == "1":
         self_test(ctx, raw, findings, kind)
+        self_test_series(ctx, sraw, sfindings, prop)
     ctx.assumptions += [
         "the reference encoder/parser harness/plyref follows the PLY format description (its own round trip is checked: Harness.Refenc)",
         "projection of real meshes through public observers is faithful; reals are judged on the lattice 1/16320 "
